@@ -393,8 +393,9 @@ func TestC19Store(t *testing.T) {
 					}
 
 					for _, i := range []int{-1, -5, len(model.items), len(model.items) + 3} {
-						if got := col.At(i); got != nil && !reflect.ValueOf(got).IsNil() {
-							fail("At(%d) is not nil for a collection of %d", i, len(model.items))
+						// "returns nil": the interface value itself, so that callers can write At(i) == nil
+						if got := col.At(i); got != nil {
+							fail("At(%d) is not nil for a collection of %d (it is a %T)", i, len(model.items), got)
 						}
 					}
 
